@@ -17,6 +17,7 @@ structure HistSt where
   c06 : Option String := none
   c01 : Option String := none
   c04 : Option String := none
+  c13 : Option String := none
   ops : Nat := 0
   /-- executions per function over the whole history, and the first result of each -/
   execs : List ExecEv := []
@@ -33,7 +34,7 @@ def runHist (fl : Flags) (b : Block) : Res :=
   let cgrCall := callGraph fl.var sc.env bld sc.fn target false none
   let cgrRedef := callGraph fl.var sc.env bld sc.fn target true none
   let fx := mkFacts sc bld target
-  let runs := splitRunsWith ["rdres", "rdexecs"] b.lines
+  let runs := splitRunsWith ["rdres", "rdexecs", "hop"] b.lines
   let outCount := fun (fid : Nat) => ((sc.fn fid).map (fun f => f.output.values.length)).getD 0
   let st := runs.foldl (fun (h : HistSt) rl =>
     let evs := rl.1
@@ -55,25 +56,67 @@ def runHist (fl : Flags) (b : Block) : Res :=
                c09 := h.c09.or (if rdexecs = 0 then none else some s!"op{h.ops}_redefine_executed_{rdexecs}_user_function_bodies"),
                c06 := h.c06.or (if rdres.head? = some "panic" then some s!"redefine_{noSpace (showImplRedef rdres)}" else none) }
     | none =>
-      let ro := replayRun fl sc bld cgrCall target evs false false h.memo h.count
-      let preds := runPredicates sc fx evs
-      let get := fun (p : String) => (preds.find? (fun q => q.1 == p)).bind (·.2)
-      let ex := execsOf evs
-      { h with memo := ro.memo, count := ro.count,
-               conform := h.conform.or (ro.conform.map (fun m => s!"op{h.ops}_{m}")),
-               c06 := h.c06.or (get "C06"),
-               -- a memoised error of a run-once function is reported without any execution in this call
-               c04 := h.c04.or ((get "C04").filter (fun m => m != "error_reported_but_no_function_failed" || h.memo.all (fun mm => mm.2.res.err.isNone))),
-               execs := h.execs ++ ex }) {}
+      -- a call: possibly on another function object of the scenario, possibly with an option left out
+      let hop := ((rl.2.find? (fun l => l.head? = some "hop")).getD []).drop 1
+      let tfid := natOf ((kv hop "target").getD "0")
+      let omitL := ((kv hop "omit").getD "").splitOn "," |>.filter (· ≠ "") |>.map natOf
+      let callOpts := ((List.range sc.opts.length).zip sc.opts).filter (fun p => p.1 ≥ sc.defaults ∧ !omitL.contains p.1) |>.map (·.2)
+      let defs := if tfid = 0 then sc.opts.take sc.defaults else []
+      match sc.fn tfid, buildFor defs callOpts with
+      | some tgt, .ok bld' =>
+        let cgr' := callGraph fl.var sc.env bld' sc.fn tgt false none
+        let fx' := mkFacts sc bld' tgt
+        let ro := replayRun fl sc bld' cgr' tgt evs false false h.memo h.count
+        let preds := runPredicates sc fx' evs
+        let get := fun (p : String) => (preds.find? (fun q => q.1 == p)).bind (·.2)
+        let ex := execsOf evs
+        -- a direct call of a run-once function that already ran must return that first result
+        let c11d : Option String :=
+          if tgt.once then
+            match h.execs.find? (fun e => e.fid == tfid), resOf evs with
+            | some first, "ok" :: rest =>
+              if first.res.err.isNone ∧ (rest.headD "") ≠ ",".intercalate (first.res.outs.map toString) then
+                some s!"op{h.ops}_direct_call_of_run-once_f{tfid}_returned_{rest.headD ""}_not_its_first_result"
+              else none
+            | _, _ => none
+          else none
+        { h with memo := ro.memo, count := ro.count,
+                 conform := h.conform.or (ro.conform.map (fun m => s!"op{h.ops}_{m}")),
+                 c06 := h.c06.or (get "C06"),
+                 c13 := h.c13.or (get "C13"),
+                 c11 := h.c11.or c11d,
+                 -- a memoised error of a run-once function is reported without any execution in this call
+                 c04 := h.c04.or ((get "C04").filter (fun m => m != "error_reported_but_no_function_failed" || h.memo.all (fun mm => mm.2.res.err.isNone))),
+                 execs := h.execs ++ ex }
+      | _, _ => { h with conform := h.conform.or (some s!"op{h.ops}_bad_target_or_options") }) {}
   -- C11 on the real history: a run-once function's body runs at most once
   let onceIds := (sc.fns.filter (fun f => f.desc.once)).map (fun f => f.desc.id)
-  let c11 := onceIds.findSome? (fun fid =>
+  let c11 := st.c11.or <| onceIds.findSome? (fun fid =>
     let n := (st.execs.filter (fun e => e.fid == fid)).length
     if n > 1 then some s!"run-once_function_f{fid}_executed_{n}_times" else none)
   let nOnceUsed := (onceIds.filter (fun fid => st.execs.any (fun e => e.fid == fid))).length
   { conform := st.conform, propNA := true,
-    props := [("C09", verdictStr st.c09), ("C11", verdictStr c11), ("C06", verdictStr st.c06), ("C04", verdictStr st.c04)],
+    props := [("C09", verdictStr st.c09), ("C11", verdictStr c11), ("C06", verdictStr st.c06), ("C04", verdictStr st.c04),
+              ("C13", verdictStr st.c13), ("C17", verdictStr st.c11)],
     stats := [s!"ops={st.ops}", s!"execs={st.execs.length}", s!"once={onceIds.length}", s!"onceused={nOnceUsed}",
               s!"convs={fx.convs.length}", s!"outcome=hist"] }
+
+end ArgMapper.Driver
+
+namespace ArgMapper.Driver
+
+/-- `convseq` blocks: each `Convert` must agree with `Call` on an identity function of the same type -/
+def runConvSeq (b : Block) : Res :=
+  let bad := b.lines.findSome? (fun l =>
+    match l with
+    | "cs" :: name :: rest =>
+      let cv := (kv rest "convert").getD "?"
+      let cl := (kv rest "call").getD "?"
+      if cv = "panic" then some s!"{name}_convert_panics"
+      else if cv ≠ cl then some s!"{name}_convert={cv}_call_on_identity={cl}"
+      else if cv.startsWith "ok" ∧ !cv.endsWith ":true" then some s!"{name}_converted_value_has_the_wrong_type"
+      else none
+    | _ => none)
+  { conform := none, prop := bad, stats := [s!"size={b.lines.length}", "execs=1", "outcome=ok"] }
 
 end ArgMapper.Driver
